@@ -6,6 +6,7 @@
 import Proofs.C08_Data
 import Proofs.C08_Formats
 import Proofs.C08_Indep
+import Proofs.C08_Shape
 namespace Atomman.C08
 open Atomman Atomman.C07
 set_option linter.unusedSimpArgs false
@@ -38,6 +39,54 @@ theorem table_reshape_roundtrip (name : String) (shape : List Nat) :
 
 example : indexNames "stress" [2, 2] = ["stress[0][0]", "stress[0][1]", "stress[1][0]", "stress[1][1]"] := by decide +kernel
 example : (allIndices [2, 3]).map (flatIndex [2, 3]) = [0, 1, 2, 3, 4, 5] := by decide +kernel
+
+/-- **reshape_flatten_roundtrip**: on the values themselves, for every shape — the one-column shapes `()`, `(1,)`,
+    `(1,1)`, `(1,1,1)` and the row / column shapes `(1,3)`, `(3,1)` are not special: the row-major cells of a value of
+    shape `shape` reshape to that value; whatever `reshape shape cells` returns has exactly the shape `shape` and
+    flattens back to the cells; and it exists exactly for `∏ shape` cells. -/
+theorem reshape_flatten_roundtrip (shape : List Nat) :
+    (∀ t : Tensor, t.hasShape shape = true → reshape shape t.flatten = some t) ∧
+    (∀ (l : List Rat) (t : Tensor), reshape shape l = some t → t.hasShape shape = true ∧ t.flatten = l) ∧
+    (∀ l : List Rat, (reshape shape l).isSome ↔ l.length = shapeProd shape) :=
+  ⟨fun t h => reshape_flatten t shape h, reshape_hasShape_flatten shape, reshape_isSome_iff shape⟩
+
+/-- **shape_told_apart**: a value has one shape only (no axis empty), so a property that comes back as `()` where
+    `(1,)` or `(1,1)` was dumped is a different value even though its single number agrees. -/
+theorem shape_told_apart (t : Tensor) (s₁ s₂ : List Nat) (h₁ : t.hasShape s₁ = true) (h₂ : t.hasShape s₂ = true)
+    (hne : ∀ d ∈ s₁, d ≠ 0) : s₁ = s₂ :=
+  hasShape_unique t s₁ s₂ h₁ h₂ hne
+
+/-- one cell, reshaped to `()`, `(1,)`, `(1,1)`: the same number, three values of three different shapes; and the
+    row `(1,3)` and the column `(3,1)` over the same three cells. -/
+example :
+    ([[], [1], [1, 1], [1, 1, 1]].map fun sh => (reshape sh [5]).map fun t =>
+        (t.flatten, [[], [1], [1, 1], [1, 1, 1]].map t.hasShape)) =
+      [some ([5], [true, false, false, false]), some ([5], [false, true, false, false]),
+       some ([5], [false, false, true, false]), some ([5], [false, false, false, true])] ∧
+    ([[3], [1, 3], [3, 1]].map fun sh => (reshape sh [1, 2, 3]).map fun t =>
+        (t.flatten, [[3], [1, 3], [3, 1]].map t.hasShape, t.get? [0, 2], t.get? [2, 0])) =
+      [some ([1, 2, 3], [true, false, false], none, none), some ([1, 2, 3], [false, true, false], some 3, none),
+       some ([1, 2, 3], [false, false, true], none, some 3)] := by
+  decide +kernel
+
+/-- **tableLoad_prop_shape** ("every carried per-atom property with its shape"): after the table reader ran with a
+    `prop_info` list naming each property once, every listed property (the atom id is not stored) is in the
+    system with exactly the shape of its entry — never squeezed or flattened — and that shape accounts for all of
+    its table columns.  Used by all three LAMMPS / table loaders (`loadTable`, `readAtoms`, `loadDumpCore`). -/
+theorem tableLoad_prop_shape (s s' : Loaded) (rows : List Line) (cols : List PCol) (usecols : Bool)
+    (hnd : (cols.map (·.prop)).Nodup) (h : tableLoad s rows cols usecols = .ok s') :
+    ∀ c ∈ cols, c.prop ≠ "a_id" →
+      ∃ q, s'.prop? c.prop = some q ∧ q.shape = c.shape ∧ shapeProd c.shape = c.names.length :=
+  tableLoad_shape s s' rows cols usecols hnd h
+
+/-- a table with a scalar, a `(1,)`, a `(1,1)` and a `(1,3)` property: four different shapes come back. -/
+example :
+    ((loadTable "1 2.5 7 1 2 3\n2 3.5 8 4 5 6\n".toList ⟨⟨⟨1, 0, 0⟩, ⟨0, 1, 0⟩, ⟨0, 0, 1⟩⟩, ⟨0, 0, 0⟩⟩
+        [⟨"atype", ["type"], [], .none⟩, ⟨"w", ["w[0]"], [1], .none⟩, ⟨"k", ["k[0][0]"], [1, 1], .none⟩,
+         ⟨"r", ["r[0][0]", "r[0][1]", "r[0][2]"], [1, 3], .none⟩] false).toOption.map
+      fun s => s.props.map fun p => (p.name, p.shape, p.isInt)) =
+    some [("atype", [], true), ("pos", [3], false), ("w", [1], false), ("k", [1, 1], true), ("r", [1, 3], true)] := by
+  decide +kernel
 
 /-! ## order of the atom lines -/
 
